@@ -236,6 +236,15 @@ func c10Prepare(t fataler, root string, initial, target string, oldSpec *specs.S
 	return s
 }
 
+// c10Target draws the Spec file name: mostly plain, sometimes a name in which the text of a Spec extension
+// (or of the temporary-file suffix) occurs before the real extension, as generated names of dotted vendor
+// domains do (foo.yaml.example.org-gpu.yaml).
+func c10Target(t *rapid.T, enc string) string {
+	stem := rapid.SampledFrom([]string{"target", "target", "target", "acme.jsonnet-gen", "vendor.yaml.d-gpu", "foo.yaml.example.org-gpu",
+		"a.json", "x.yaml", "spec.1.tmp", ".json.hidden", "t.tmp"}).Draw(t, "targetStem")
+	return stem + enc
+}
+
 func c10Specs(t *rapid.T) (newSpec, oldSpec *specs.Spec) {
 	newSpec = gen.Spec(t, "new", gen.SpecOpts{Vendors: []string{"v1.com"}, Classes: []string{"gpu"}, DevNames: []string{"d0", "d1"}, MaxDevices: 2,
 		Edit: gen.EditOpts{NoHost: true, MaxPer: 2, Hostile: rapid.IntRange(0, 3).Draw(t, "hostile") == 0}})
@@ -277,7 +286,7 @@ func TestC10Syscalls(t *testing.T) {
 		newSpec, oldSpec := c10Specs(t)
 		enc := rapid.SampledFrom([]string{".json", ".yaml"}).Draw(t, "encoding")
 		initial := rapid.SampledFrom([]string{"no-dir", "empty-dir", "old-file", "old-file", "old-file-and-bystander"}).Draw(t, "initial")
-		target := "target" + enc
+		target := c10Target(t, enc)
 		root := filepath.Join(tl.work, "case")
 		_ = os.RemoveAll(root)
 		_ = os.MkdirAll(root, 0o755)
@@ -428,7 +437,7 @@ func TestC10WriteOffsets(t *testing.T) {
 		newSpec, oldSpec := c10Specs(t)
 		enc := rapid.SampledFrom([]string{".json", ".yaml"}).Draw(t, "encoding")
 		initial := rapid.SampledFrom([]string{"empty-dir", "old-file", "old-file-and-bystander"}).Draw(t, "initial")
-		target := "target" + enc
+		target := c10Target(t, enc)
 		root := filepath.Join(tl.work, "ocase")
 		_ = os.RemoveAll(root)
 		_ = os.MkdirAll(root, 0o755)
@@ -491,10 +500,10 @@ func TestC10Events(t *testing.T) {
 		newSpec, oldSpec := c10Specs(t)
 		enc := rapid.SampledFrom([]string{".json", ".yaml", ""}).Draw(t, "encoding")
 		initial := rapid.SampledFrom([]string{"empty-dir", "old-file", "old-file-and-bystander"}).Draw(t, "initial")
-		name := "target" + enc
+		name := c10Target(t, enc)
 		target := name
-		if enc == "" {
-			target += ".yaml"
+		if e := filepath.Ext(name); e != ".json" && e != ".yaml" {
+			target += ".yaml" // extension-less names are written as YAML under <name>.yaml
 		}
 		root := filepath.Join(base, fmt.Sprintf("e%d", seq%8))
 		s := c10Prepare(t, root, initial, target, oldSpec)
@@ -679,7 +688,7 @@ func TestC10MountPoint(t *testing.T) {
 	rapid.Check(t, func(t *rapid.T) {
 		newSpec, oldSpec := c10Specs(t)
 		enc := rapid.SampledFrom([]string{".json", ".yaml"}).Draw(t, "encoding")
-		target := "target" + enc
+		target := c10Target(t, enc)
 		root := filepath.Join(tl.work, "mcase")
 		_ = os.RemoveAll(root)
 		_ = os.MkdirAll(root, 0o755)
